@@ -886,7 +886,81 @@ def canon_keys(t):
     return t
 
 
+# ------------------------------------------------------------------ heterogeneous items x cache histories
+
+HETERO_KEYS = {
+    ("C", "keys"): "C07/hetero/container/keys",
+    ("C", "roundtrip"): "C07/hetero/container/roundtrip",
+    ("C", "element-keys"): "C07/hetero/container/element-keys",
+    ("K", "keys"): "C07/hetero/item-class-after-history/keys",
+    ("K", "roundtrip"): "C07/hetero/item-class-after-history/roundtrip",
+}
+
+
+def run_hetero(rep, rnd, tier):
+    import sys
+    from harness import c07hetero
+    me = sys.modules[__name__]
+    for sc in c07hetero.gen_scenarios(rnd, tier):
+        if not c07hetero.injective(sc, me):
+            rep.stat("hetero-history", "skipped:not-injective")
+            continue
+        try:
+            runner = c07hetero.Runner(sc, "H%d" % sc["uid"], me)
+        except Exception as e:  # noqa
+            rep.stat("hetero-history", "skipped:" + type(e).__name__)
+            continue
+        decls = tuple("none" if it["decl"] is None else (it["decl"][1] if isinstance(it["decl"][1], str) else it["decl"][0])
+                      for it in sc["items"])
+        rep.count("hetero-history", 1, (sc["kind"], sc["history_kind"], decls, sc["cdecl"] is not None))
+        rep.stat("hetero-history", "kind:" + sc["kind"])
+        rep.stat("hetero-history", "history:" + sc["history_kind"])
+        rep.stat("hetero-history", "item-classes:%d" % len(sc["items"]))
+        for j in range(len(sc["history"])):
+            for jd in runner.step(j):
+                rep.stat("hetero-history", "judged:%s/%s:%s" % ("C" if jd["who"] == "C" else "K", jd["clause"],
+                                                                "ok" if jd["ok"] else "fails"))
+                if jd["ok"]:
+                    continue
+                if jd.get("merged"):
+                    key = "C07/hetero/positional-items-share-one-merged-mapper"
+                    what = ("Array(items=[A, B]) of two structure classes: _set_base_mapper_no_op merges the item classes' "
+                            "aggregated mappers with dict.update into ONE '<field>._mapper' entry, so every element is "
+                            "serialized with the LAST class's key for a field name the classes share")
+                else:
+                    key = HETERO_KEYS[("C" if jd["who"] == "C" else "K", jd["clause"])]
+                    what = ("after the history %s: %s of %s fails" % (
+                        [s["who"] for s in sc["history"][:j + 1]], jd["clause"], jd["who"]))
+                rep.finding(key, what + " (camel_case_convert=%s): %s" % (jd["flag"], jd["detail"][:300]),
+                            {"hetero": sc, "step": j, "who": jd["who"], "clause": jd["clause"], "flag": jd["flag"],
+                             "python": runner.src})
+
+
+def replay_hetero(obj):
+    import sys
+    from harness import c07hetero
+    me = sys.modules[__name__]
+    sc = obj["hetero"]
+    runner = c07hetero.Runner(sc, "RH%d" % random.randrange(10 ** 6), me)
+    print(runner.src)
+    bad = 0
+    for j in range(obj["step"] + 1):
+        st = sc["history"][j]
+        print("step %d: %s%s via %s" % (j, "schema export + " if st.get("schema") else "",
+                                        "serialize/deserialize an instance of " + st["who"], st["entry"]))
+        for jd in runner.step(j):
+            print("   camel_case_convert=%-5s %-12s %s  %s" % (jd["flag"], jd["clause"], "ok   " if jd["ok"] else "FAILS", jd["detail"]))
+            if (j == obj["step"] and jd["who"] == obj["who"] and jd["clause"] == obj["clause"]
+                    and jd["flag"] == obj["flag"] and not jd["ok"]):
+                bad = 1
+    if not bad:
+        print("no clause of C07 fails on this history now")
+    return bad
+
+
 def replay(obj):
+    if obj.get("hetero"):
+        return replay_hetero(obj)
     case = {"h": obj["h"], "override": obj.get("override"), "x": obj["x"], "entry": obj.get("entry", "wrapper"),
             "history": obj.get("history", "fresh")}
     if obj.get("wrapper"):
@@ -1002,6 +1076,7 @@ def run(rep, tier):
         "undefined extra attributes created by deserialization are outside the model (the real == sees them)",
     ]
     cases = gen_cases(rnd, tier)
+    run_hetero(rep, random.Random(core.seed() * 1000003 + 77), tier)
     observed = []
     skipped = 0
     for i, case in enumerate(cases):
@@ -1242,5 +1317,8 @@ def run(rep, tier):
              "(2 fields: full product; 3 fields: sample) and optional '<x>._mapper' entries; stream falsy-lattice: the same shapes "
              "with every value falsy (0, '', False, 0.0, empty nested structure, empty Array/Set); every case with "
              "camel_case_convert off and on, through Serializer/Deserializer or serialize()/deserialize_structure(), on a fresh "
-             "class or after the class was served under another mapper; distinct = (kinds, renames, assignment, explicit mapper?); "
+             "class or after the class was served under another mapper; stream hetero-history: Array(items=[K0,K1(,K2)]) / "
+             "Tuple(items=..) / Array[AnyOf[..]] / Set[AnyOf[..]] / one Array per class over 2-3 structure classes with shared "
+             "field names renamed differently x histories over the mapper cache (container first / items first / interleaved, "
+             "schema export as filler), key-set and round-trip clauses judged for the class of every step; distinct = (kinds, renames, assignment, explicit mapper?); "
              "wrappers = valid mapper / one non-field key")
